@@ -114,9 +114,28 @@ func genC02(seed uint64, r *rng.Rand) *Plan {
 		for t := range p.Tasks {
 			for i := range p.Tasks[t].Ops {
 				o := &p.Tasks[t].Ops[i]
+				if o.Kind == "batch" && g.R.Chance(0.5) {
+					// a batch whose own deadline is far away holds calls that give up on
+					// their own while the slow server works: SendBatch still takes
+					// whatever arrives for them, and that must be what the server sent
+					o.Ctx = CtxSpec{Kind: "timeout", MS: g.R.Range(150, 400)}
+					for j := range o.Batch {
+						if g.R.Chance(0.5) {
+							o.Batch[j].Ctx = CtxSpec{Kind: "timeout", MS: g.R.Range(1, 60)}
+						}
+					}
+					continue
+				}
 				if o.Kind != "batch" && len(o.Key) > 0 && g.R.Chance(0.35) {
-					o.SkipBatch = true
 					o.Ctx = CtxSpec{Kind: "timeout", MS: g.R.Range(1, 40)}
+					if g.R.Chance(0.5) {
+						// the call travels in a multi and is answered normally: when its
+						// answer is decoded at the instant its context ends, the caller may
+						// still take it - and then it must be the answer the server gave
+						o.SkipBatch = false
+						continue
+					}
+					o.SkipBatch = true
 					p.Rules = append(p.Rules, &hb.Rule{Class: hb.AppClasses[g.R.Intn(len(hb.AppClasses)-1)], Msg: "injected", Count: 1, Server: -1, Level: "call", Nonce: o.Nonce})
 				}
 			}
